@@ -7,7 +7,7 @@ from .. import boot, core, api
 
 ID = "C11"
 LEVEL = "exploration"
-BUDGET = {"quick": 120, "thorough": 1500}
+BUDGET = {"quick": 180, "thorough": 1800}
 MAXP = {"quick": 3, "thorough": 4}
 MAXPREFIX = {"quick": 2, "thorough": 3}
 EXHAUSTIVE = {"quick": True, "thorough": True}
@@ -17,13 +17,15 @@ RULE = ("enumeration (sharded 16 ways): every parameter list over {positional-on
         "__init__, functools.wraps pass-through decorator}; x every prefix of complete arguments over {positional, "
         "kw=} for all parameter names (+ one unknown name) up to length 2 (quick) / 3 (thorough), one less for the longest lists, that binds "
         "(inspect.Signature.bind_partial succeeds); x argument being typed in {'', '0', name prefix, 'name=', "
-        "'name=0'}; plus Hypothesis-sampled 5-6 parameter lists and docstring shapes. Oracle = inspect.signature / "
+        "'name=0'} plus two of six starred forms (*name, *[..], **name, **{..}, **a.b, **f()), rotating; plus Hypothesis-sampled 5-6 parameter lists and docstring shapes. Oracle = inspect.signature / "
         "inspect.getdoc of the executed definition; index must lie in may(cur) (the parameters some completion of "
         "the typed text could bind to), be None iff may is empty and equal when |may| = 1. `exhaustive` refers to "
         "this enumerated sub-space only. Non-trivial cell: the list has >=2 kinds, or the prefix has a keyword "
         "argument, or the callable is bound/decorated; distinct = hash(source, call).")
 ASSUMPTIONS = ["CPython inspect as oracle for parameters, binding and docstrings (definitions are exec'd in a scratch namespace)",
-               "starred arguments (*seq, **map) in call prefixes are not enumerated: their length is unknown statically"]
+               "starred arguments (*seq, **map) are enumerated only as the argument being typed, judged against the set of "
+               "parameters some sequence / mapping could bind; completed starred arguments earlier in the call are not "
+               "enumerated (their length is unknown statically)"]
 
 NAMES = ["aa", "ab", "cc", "dd", "ee", "ff"]
 P = inspect.Parameter
@@ -133,6 +135,20 @@ def may_set(sig, pos_prefix, kw_prefix, cur):
             return {idx[var_kw[0].name]}
         return set()
 
+    if cur.startswith("**"):
+        # a mapping whose keys are not known: it can bind every parameter a keyword can still reach
+        out = {idx[p.name] for p in params if p.kind in (P.POSITIONAL_OR_KEYWORD, P.KEYWORD_ONLY) and p.name not in taken}
+        if var_kw:
+            out.add(idx[var_kw[0].name])
+        return out
+    if cur.startswith("*"):
+        # a sequence of unknown length: the next free positional slot and everything positional behind it
+        if kw_prefix:
+            return None       # positional unpacking after keywords is legal Python but binds by rules not judged here
+        out = {idx[p.name] for p in positional[pos_prefix:]}
+        if var_pos:
+            out.add(idx[var_pos[0].name])
+        return out
     m = re.match(r"^([A-Za-z_]\w*)=", cur)
     if m:
         return kw_target(m.group(1))
@@ -147,6 +163,8 @@ def may_set(sig, pos_prefix, kw_prefix, cur):
     return pos_slot()
 
 
+STARRED = ['**{"zz": 0}', "*sq", "**ob.at", "*[0]", "**mk()", "**kw"]
+_STAR_ROT = [0]
 _PROJECT = []
 
 
@@ -193,7 +211,10 @@ def check_cells(ctx, ps, flavour, maxprefix, doc=None, devs=None):
                     bad = True
             if bad:
                 continue
-            for cur in cursors:
+            # two of the starred forms per prefix, rotating (the expression after the stars is never evaluated: only
+            # its syntactic form - bare name, display, attribute, call, nothing yet - matters to the code under test)
+            rot = _STAR_ROT[0] = (_STAR_ROT[0] + 1) % 3
+            for cur in cursors + STARRED[2 * rot:2 * rot + 2]:
                 may = may_set(want, pos_n, kws, cur)
                 if may is None:
                     continue
@@ -243,11 +264,13 @@ def check_cells(ctx, ps, flavour, maxprefix, doc=None, devs=None):
                 if tuple(bs) != (line_no, len(call_expr)):
                     devs.append(("bracket_start", "%s -> %s expected %s" % (where, bs, (line_no, len(call_expr)))))
                 i = g.index
-                shape = "cur:%s" % ("kw=" if "=" in cur else "empty" if cur == "" else "expr" if cur == "0" else "ident")
+                shape = "cur:%s" % ("dstar" if cur.startswith("**") else "star" if cur.startswith("*") else "kw=" if "=" in cur else "empty" if cur == "" else "expr" if cur == "0" else "ident")
                 if (i is None) != (not may) or (i is not None and i not in may):
                     if not may:
                         mname = re.match(r"^([A-Za-z_]\w*)=", cur)
-                        if mname and mname.group(1) in kws:
+                        if cur.startswith("*"):
+                            why = "starred"
+                        elif mname and mname.group(1) in kws:
                             why = "repeated-keyword"
                         elif mname and mname.group(1) in want.parameters:
                             why = "keyword-for-positionally-bound-parameter"
